@@ -185,6 +185,7 @@ func genC12() {
 	pin("pkg/redis/client/proto/writer.go", "WriteArgs", "writeLen", "WriteArg", "bytes", "string", "uint", "int", "crlf") // not `float`: its rendering is free, the round trip is checked on the real writer
 	pin("pkg/redis/client/conn/redis_conn.go", "Send", "send")
 	facts["c12_bodies"] = bodies
+	genC12Globals() // c12_globals: package-level variables of the decoder / encoder / writer files and who writes them
 	genC12Bufio() // c12_bufio: the standard library functions the bufio model transcribes (c12_bufio.go)
 
 	// ---- users of the stream decoder and their offset arithmetic
